@@ -6,3 +6,5 @@ import Eliot.Properties.C05
 #print axioms Ctx.C05.attribution_schedule_independent_lookup
 #print axioms Ctx.C05.tree_shape_schedule_independent
 #print axioms Ctx.C05.tree_shape_schedule_independent_allDone
+#print axioms Ctx.C05.unit_order
+#print axioms Ctx.C05.unit_order_schedule_independent
